@@ -154,6 +154,9 @@ pub struct DriveOpts {
     pub check_nonempty: bool,
     /// Model replies for prefix checking (absolute triggers), if any.
     pub replies: Option<Vec<u8>>,
+    /// Offset at which the model's preamble ends: the parse() call that is handed the byte before it (or more) must
+    /// report done - progress must not depend on a further call without new input.
+    pub done_by: Option<usize>,
 }
 
 /// Feeds `wire[*pos..cap]` to the parser under the chunk style until done or exhausted.
@@ -211,6 +214,11 @@ pub fn drive_request(
         if done {
             d.done = true;
             return Ok(d);
+        }
+        if let Some(end) = opts.done_by {
+            if k > 0 && *pos >= end {
+                vfail!("c01_not_done_after_last_byte", "", "the parse() call that received the last byte of the preamble ({} of {end} bytes fed, {k} in this call) reported done == false: finishing depends on how the bytes are cut into reads", *pos);
+            }
         }
         if opts.check_nonempty && parser.input_buffer().is_empty() {
             vfail!("c06_empty_input_buffer", "", "parse() returned done == false but input_buffer() is empty (fed {} bytes)", *pos);
@@ -359,7 +367,8 @@ pub fn run_precase(cx: &mut Ctx, case: &PreCase, m: &PreambleModel, style: Style
     vcheck!(eff == effective(case.bufsize), "c06_effective_bufsize", "effective buffer {eff} for configured {}", case.bufsize);
     let expected_out = model::concat_replies(&m.replies);
     let mut pos = 0;
-    let opts = DriveOpts { style, cap: case.wire.len(), check_nonempty: true, replies: Some(expected_out.clone()) };
+    let done_by = match &m.outcome { PreOutcome::Done(info) => Some(info.end), _ => None };
+    let opts = DriveOpts { style, cap: case.wire.len(), check_nonempty: true, replies: Some(expected_out.clone()), done_by };
     let oracle_out = if prop == "C01" { "c01_output" } else { "c04_reply_stream" };
     let d = drive_request(cx, &mut parser, &case.wire, &mut pos, &opts, oracle_out)?;
     // Replies may not precede their trigger.
@@ -435,7 +444,7 @@ pub const NOISE_PROBES: &[&str] = &[
     "noise_getvalues", "noise_unknown_type", "noise_skipped", "noise_foreign_id", "noise_dup_begin", "noise_foreign_begin",
     "noise_unknown_role", "noise_own_misplaced", "noise_getvalues_empty", "noise_huge_record", "noise_huge_record_over_64k_total", "getvalues_incomplete_tail",
 ];
-pub const C01_PROBES: &[&str] = &[
+pub const C01_PROBES: &[&str] = &["burst_of_1100plus_reply_records", 
     "exact_fill_read", "params_3plus_records", "long_form_small_len", "pair_spans_3_records", "four_byte_length",
     "cut_inside_length_prefix", "tight_buffer", "pair_over_one_record", "buffer_holds_whole_huge_record",
 ];
@@ -462,7 +471,21 @@ pub fn c01(cx: &mut Ctx) -> VResult {
     cx.declare(&[], NOISE_PROBES);
     let big = cx.ch.chance(1, 40);
     let o = PreOpts { allow_abort: false, noise_num: cx.ch.pick(4), big_ok: big, max_pairs: if big { 3 } else { 10 }, force_buf: None };
-    let case = gen_precase(cx, &o);
+    let mut case = gen_precase(cx, &o);
+    // scale: one preamble in ~250 carries a burst of 1100..6000 reply-producing records (unknown types, 8 bytes
+    // each) behind some record, with a buffer that can hold the whole burst; the first schedule feeds as much as fits
+    let burst = cx.ch.chance(1, 250);
+    if burst {
+        let n = cx.ch.range(1100, 6000);
+        let at = cx.ch.range(1, case.recs.len() - 1);
+        let t = cx.ch.one_of(&[0u8, 12, 13, 127, 255]);
+        let id = cx.ch.one_of(&[0u16, 1, 77]);
+        let b: Vec<Rec> = (0..n).map(|_| Rec::new(t, id, Vec::new(), 0)).collect();
+        case.recs.splice(at..at, b);
+        case.wire = encode_all(&case.recs);
+        case.bufsize = case.bufsize.max(cx.ch.one_of(&[65536usize, 1 << 20]));
+        cx.probe("burst_of_1100plus_reply_records");
+    }
     let m = model::preamble(&case.wire, 0, case.max_conns);
     note_reach(cx, &case, &m);
     let longest = match &m.outcome { PreOutcome::Done(_) => case.recs.iter().map(|r| r.content.len()).max().unwrap_or(0), _ => 0 };
@@ -471,7 +494,7 @@ pub fn c01(cx: &mut Ctx) -> VResult {
     if !matches!(m.outcome, PreOutcome::Done(_)) {
         panic!("harness: C01 generator produced a preamble the model does not complete: {}", describe(&case));
     }
-    let style = pick_style(cx);
+    let style = if burst { Style::Large } else { pick_style(cx) };
     sample_of(cx, &case, style);
     let a = run_precase(cx, &case, &m, style, "C01")?;
     // metamorphic: other schedules give the identical outcome
@@ -584,7 +607,7 @@ pub fn c06(cx: &mut Ctx) -> VResult {
     let cfg = config(case.bufsize, case.max_conns);
     let mut parser = request::Parser::new(&cfg);
     let mut pos = 0;
-    let opts = DriveOpts { style, cap: case.wire.len(), check_nonempty: true, replies: None };
+    let opts = DriveOpts { style, cap: case.wire.len(), check_nonempty: true, replies: None, done_by: None };
     let d = drive_request(cx, &mut parser, &case.wire, &mut pos, &opts, "c06")?;
     let res = guard(move || parser.into_request());
     match res {
